@@ -250,7 +250,7 @@ pub enum Site {
     DefaultFn(String),
 }
 
-pub const SUPPORT: &str = "Flags ::= BIT STRING { b9(9), b1(1), b15(15), b0(0), b5(5), b2(2) }\nCol ::= ENUMERATED { red, green(5), blue, dark-red(9) }\nNum ::= INTEGER { one(1), max-n(99), neg(-7) }\nInner ::= SEQUENCE { p INTEGER, q BOOLEAN }\nCh ::= CHOICE { ia INTEGER, bo BOOLEAN, st UTF8String, inner Inner }\nSq ::= SEQUENCE { x INTEGER, y BOOLEAN, z OCTET STRING }\nLi ::= SEQUENCE OF INTEGER\nMyInt ::= INTEGER\nMyInt2 ::= MyInt\nMyStr ::= UTF8String\nbase-oid OBJECT IDENTIFIER ::= { iso standard 8571 }\n";
+pub const SUPPORT: &str = "Flags ::= BIT STRING { b9(9), b1(1), b15(15), b0(0), b5(5), b2(2) }\nCol ::= ENUMERATED { red, green(5), blue, dark-red(9) }\nUnit ::= ENUMERATED { kiloWatt, kilowatt, mega-watt, megaWatt, kilo-watt }\nNum ::= INTEGER { one(1), max-n(99), neg(-7) }\nInner ::= SEQUENCE { p INTEGER, q BOOLEAN }\nCh ::= CHOICE { ia INTEGER, bo BOOLEAN, st UTF8String, inner Inner }\nSq ::= SEQUENCE { x INTEGER, y BOOLEAN, z OCTET STRING }\nLi ::= SEQUENCE OF INTEGER\nMyInt ::= INTEGER\nMyInt2 ::= MyInt\nMyStr ::= UTF8String\nbase-oid OBJECT IDENTIFIER ::= { iso standard 8571 }\n";
 const FLAG_DECL: [(&str, i64); 6] = [("b9", 9), ("b1", 1), ("b15", 15), ("b0", 0), ("b5", 5), ("b2", 2)];
 
 fn esc(s: &str) -> String {
@@ -321,6 +321,11 @@ pub fn gen_cases(cfg: &RunCfg) -> Vec<Case> {
     for n in ["red", "green", "blue", "dark-red"] {
         let rust = n.replace('-', "_");
         value("Col", n, format!("( enumeral {} )", hex(&rust)), "enumeral", &mut cases);
+    }
+    // enumerals that differ by case or hyphen only: each names its own item
+    for n in ["kiloWatt", "kilowatt", "mega-watt", "megaWatt", "kilo-watt"] {
+        let rust = n.replace('-', "_");
+        value("Unit", n, format!("( enumeral {} )", hex(&rust)), "enumeral-differing-by-case-only", &mut cases);
     }
     // character strings
     let nstr = cfg.budget(60, 1500);
